@@ -391,7 +391,8 @@ func qualifiedName(t types.Type, qf types.Qualifier) (string, bool) {
 	isPtr := false
 	if strings.HasPrefix(name, "*") {
 		isPtr = true
-		name = strings.TrimLeft(name, "*")
+		//one level only: a **T field keeps *T as its element type
+		name = strings.TrimPrefix(name, "*")
 	}
 	return name, isPtr
 }
